@@ -151,7 +151,8 @@ def _c11(seed, quick):
     m, mb = (12, 40) if quick else (300, 420)
     return {
         # thorough only: the two real-time cases (a 12 s stall behind a full queue, 62 s without a write)
-        "shards": conc_shards("C11", seed, "burst", m, mb, shards=14 if quick else 12) + conc_shards("C11", seed, "held-client", 600 if quick else 20000, mb, shards=2)
+        "shards": conc_shards("C11", seed, "burst", m, mb, shards=13 if quick else 11) + conc_shards("C11", seed, "held-client", 600 if quick else 20000, mb, shards=2)
+                  + conc_shards("C11", seed, "drop-backlog", 200 if quick else 20000, mb, shards=1)
                   + ([] if quick else conc_shards("C11", seed, "idle", 1, 200, shards=2)),
         "rule": "Bursts of 10-300 un-awaited writes from 1-16 threads, command_buffer_size in {1,2,3,8,32768}, worker slowed at its dequeue / before its acknowledgement "
                 "so that the queue really fills. distinct = hash of the execution order (thread, per-thread sequence number); non-trivial = at least 10 queued "
@@ -271,7 +272,7 @@ def _c08_extra(seed, quick):
 def _c07_extra(seed, quick):
     return (conc_shards("C07", seed, "same-key", 24 if quick else 400, 40 if quick else 400, shards=1) + conc_shards("C07", seed, "held-client", 600 if quick else 20000, 40 if quick else 400, shards=1)
             + conc_shards("C07", seed, "mixed", 40 if quick else 600, 40 if quick else 400, shards=3) + conc_shards("C07", seed, "locked-shard", 24 if quick else 2000, 40 if quick else 400, shards=1)
-            + conc_shards("C07", seed, "fanout", 30 if quick else 3000, 40 if quick else 400, shards=1) + conc_shards("C07", seed, "sweep-other-key", 144 if quick else 3000, 40 if quick else 400, shards=1))
+            + conc_shards("C07", seed, "fanout", 30 if quick else 3000, 40 if quick else 400, shards=1) + conc_shards("C07", seed, "sweep-other-key", 144 if quick else 3000, 40 if quick else 400, shards=1) + conc_shards("C07", seed, "held-ref", 40 if quick else 3000, 40 if quick else 400, shards=1))
 
 
 def _c03_extra(seed, quick):
@@ -289,7 +290,7 @@ def _c09_extra(seed, quick):
 
 def _c10_extra(seed, quick):
     return (conc_shards("C10", seed, "sweep-reput", 60 if quick else 3000, 40 if quick else 400, shards=1) + conc_shards("C10", seed, "update-sweep", 120 if quick else 3000, 40 if quick else 400, shards=1)
-            + conc_shards("C10", seed, "sweep-other-key", 144 if quick else 3000, 40 if quick else 400, shards=2) + conc_shards("C10", seed, "fanout", 30 if quick else 3000, 40 if quick else 400, shards=1) + conc_shards("C10", seed, "slow-tick", 1 if quick else 12, 60 if quick else 400, shards=2))
+            + conc_shards("C10", seed, "sweep-other-key", 144 if quick else 3000, 40 if quick else 400, shards=2) + conc_shards("C10", seed, "fanout", 30 if quick else 3000, 40 if quick else 400, shards=1) + conc_shards("C10", seed, "slow-tick", 1 if quick else 12, 60 if quick else 400, shards=2) + conc_shards("C10", seed, "held-ref", 40 if quick else 3000, 40 if quick else 400, shards=1))
 
 
 def _c16_extra(seed, quick):
